@@ -311,6 +311,56 @@ var c01Templates = []tmpl{
 	}},
 	{"continue-after-a-finished-switch-in-a-three-clause-loop", `s := 0; for i := 0; i < 4; i++ { switch i % 3 { case 0: s += 1 default: s += 2 }; if i % 2 == 0 { continue }; s += 10 }; [7, s][1] + a`, func(a, b, c, n int64) tOut { return outInt(1 + 2 + 10 + 2 + 1 + 10 + a) }},
 	{"compound-index-assignment-evaluates-the-index-once", `k := 0; f := func() { k += 1; return 0 }; l := [a]; l[f()] += b; l[0] + k * 1000`, func(a, b, c, n int64) tOut { return outInt(a + b + 1000) }},
+	{"ternary-evaluates-only-the-chosen-branch", `t := func(x) { emit(x); return x }; r := (a > b) ? t(1) : t(2); r`, func(a, b, c, n int64) tOut {
+		if a > b {
+			return outEmit(rvInt(1), 1)
+		}
+		return outEmit(rvInt(2), 2)
+	}},
+	{"swap-by-multiple-assignment", `x, y := [a, b]; x, y = [y, x]; x - y`, func(a, b, c, n int64) tOut { return outInt(b - a) }},
+	{"slices-with-omitted-bounds", `l := [a, b, c]; l[1:][0] + l[:2][1] + l[:][2]`, func(a, b, c, n int64) tOut { return outInt(b + b + c) }},
+	{"template-expression-evaluated-once", `t := func() { emit(1); return 5 }; s := 'v={t()}'; len(s) + a`, func(a, b, c, n int64) tOut { return outEmit(rvInt(3+a), 1) }},
+	{"switch-takes-the-first-matching-case", `switch a { case 1: emit(1) case 1: emit(2) case 2: emit(3) default: emit(4) }; 0`, func(a, b, c, n int64) tOut {
+		switch a {
+		case 1:
+			return outEmit(rvInt(0), 1)
+		case 2:
+			return outEmit(rvInt(0), 3)
+		}
+		return outEmit(rvInt(0), 4)
+	}},
+	{"range-over-list-index-and-value", `for i, v := range [a, b] { emit(i); emit(v) }; 0`, func(a, b, c, n int64) tOut { return outEmit(rvInt(0), 0, a, 1, b) }},
+	{"range-over-int", `s := 0; for i := range 4 { s += i }; s + a`, func(a, b, c, n int64) tOut { return outInt(6 + a) }},
+	{"range-over-string-indices", `s := 0; for i, ch := range "héy" { s += i }; s + a`, func(a, b, c, n int64) tOut { return outInt(0 + 1 + 2 + a) }},
+	{"default-parameter-used-only-when-omitted", `f := func(x, y=5) { return x * 10 + y }; f(1) + f(1, 2) + a`, func(a, b, c, n int64) tOut { return outInt(15 + 12 + a) }},
+	{"recursion-through-a-reassigned-variable", `f := func(k) { return k }; g := f; f = func(k) { if k <= 0 { return 0 }; return 1 + f(k - 1) }; f(3) + g(a)`, func(a, b, c, n int64) tOut { return outInt(3 + a) }},
+	{"try-handler-receives-the-error", `try(func() { error("abc") }, func(e) { return len(e.message()) }) + a`, func(a, b, c, n int64) tOut { return outInt(3 + a) }},
+	{"postfix-increment-statement", `x := a; x++; x++; x--; x`, func(a, b, c, n int64) tOut { return outInt(a + 1) }},
+	{"method-chain-evaluates-left-to-right", `t := func(x) { emit(x); return [x] }; t(1).append(2).extend(t(3)); 0`, func(a, b, c, n int64) tOut { return outEmit(rvInt(0), 1, 3) }},
+	{"arguments-evaluated-left-to-right", `t := func(x) { emit(x); return x }; g := func(p, q, r) { return p - q + r }; g(t(a), t(b), t(c))`, func(a, b, c, n int64) tOut { return outEmit(rvInt(a-b+c), a, b, c) }},
+	{"list-literal-evaluated-left-to-right", `t := func(x) { emit(x); return x }; l := [t(1), t(2), t(3)]; len(l)`, func(a, b, c, n int64) tOut { return outEmit(rvInt(3), 1, 2, 3) }},
+	{"and-or-short-circuit-in-conditions", `t := func(x) { emit(x); return x > 0 }; r := 0; if t(a) && t(b) { r = 1 }; if t(a) || t(c) { r += 2 }; r`, func(a, b, c, n int64) tOut {
+		var em []int64
+		r := int64(0)
+		em = append(em, a)
+		first := a > 0
+		if first {
+			em = append(em, b)
+			if b > 0 {
+				r = 1
+			}
+		}
+		em = append(em, a)
+		if a > 0 {
+			r += 2
+		} else {
+			em = append(em, c)
+			if c > 0 {
+				r += 2
+			}
+		}
+		return outEmit(rvInt(r), em...)
+	}},
 	{"error-raised", `error("boom"); a`, func(a, b, c, n int64) tOut { return outErr() }},
 	{"division-by-zero-error", `a / b`, func(a, b, c, n int64) tOut {
 		if b == 0 {
